@@ -6,3 +6,7 @@ import LyModel.Props.C01Lyb
 #print axioms LyModel.Props.C01Lyb.lyb_hash_lookup_correct_real
 #print axioms LyModel.Props.C01Lyb.lyb_hash_siblings_total_fails
 #print axioms LyModel.Props.C01Lyb.lyb_hash_siblings_total_partial
+#print axioms LyModel.Props.C01Lyb.lyb_revision_pack_roundtrip
+#print axioms LyModel.Props.C01Lyb.lyb_revision_pack_range_fails
+#print axioms LyModel.Props.C01Lyb.absorb_byte_injective
+#print axioms LyModel.Props.C01Lyb.hash_multi_state_injective
